@@ -4,6 +4,7 @@ package main
 // dropped (effect-free) calls, contracts, inlining, unknown calls.
 
 import (
+	"strconv"
 	"fmt"
 	"go/ast"
 	"go/constant"
@@ -199,6 +200,9 @@ func (ex *Exec) evalCallWithArgs2(st *State, call *ast.CallExpr, preArgs []*Val,
 		resT = ex.typeOf(call)
 	}
 	if fn == nil {
+		if vs, ok := ex.pureFieldCall(st, fun, fv, args, sc, resT); ok {
+			return vs
+		}
 		// call through an unknown function value
 		if sc != nil {
 			ex.specErr("call of unknown function in contract expression at %s", ex.pos(call.Pos()))
@@ -809,14 +813,10 @@ func (ex *Exec) applyContract(st *State, c *Contract, fn *types.Func, recv *Val,
 		ex.assumption(c.Func + " is treated as a deterministic function of its arguments")
 		var sorts, terms []string
 		for _, a := range args {
-			if a != nil && a.Sh != nil && a.Sh.IsLeaf() {
-				sorts = append(sorts, a.Sh.Leaf)
-				terms = append(terms, a.S)
-			} else if a != nil && a.Sh != nil && a.Sh.Kind == "slice" && a.kid("elems").Sh.IsLeaf() {
-				// slices of scalars contribute their length and contents
-				sorts = append(sorts, "Int", a.kid("elems").Sh.Leaf)
-				terms = append(terms, a.kid("len").S, a.kid("elems").S)
-			}
+			// scalars; the components of an `any`; slices of scalars contribute their length and contents
+			s2, t2 := ex.flattenArg(a)
+			sorts = append(sorts, s2...)
+			terms = append(terms, t2...)
 		}
 		for i, r := range results {
 			if r.Sh == nil || len(sorts) == 0 {
@@ -841,7 +841,7 @@ func (ex *Exec) applyContract(st *State, c *Contract, fn *types.Func, recv *Val,
 				}
 				return o
 			}
-			if r.Sh.Kind == "any" || (r.Sh.Kind != "slice" && !r.Sh.IsLeaf() && r.Sh.Kind != "struct") {
+			if r.Sh.Kind != "any" && r.Sh.Kind != "slice" && !r.Sh.IsLeaf() && r.Sh.Kind != "struct" {
 				continue
 			}
 			v := build(r.Sh, "")
@@ -877,6 +877,9 @@ func (ex *Exec) applyContract(st *State, c *Contract, fn *types.Func, recv *Val,
 		if !ex.clauseActive(cl) {
 			continue // a clause restricted to other properties: neither demanded nor used in this check
 		}
+		if c.Opaque && ex.contract != nil && cl.Kind == "ensures" {
+			continue // opaque: what callers may use is exported by lemmas (`assert uses`)
+		}
 		ex.curClause = c.Func + ": ensures " + cl.Text
 		g := ex.eval(st, cl.Expr, sc)
 		st.assume(implies(dom, g.S))
@@ -895,7 +898,7 @@ func (ex *Exec) applyGetter(st *State, c *Contract, fn *types.Func, recv *Val, a
 	}
 	rs := "0"
 	if recv != nil && recv.Sh != nil && recv.Sh.IsLeaf() {
-		rs = recv.S
+		rs = ex.ptrIdentity(recv)
 	}
 	verArr := ex.heapArr(s, heapKey("G$", "getterVersion"), "Int")
 	ver := "(select " + verArr + " " + rs + ")"
@@ -1205,16 +1208,24 @@ func (ex *Exec) specForm(st *State, name string, call *ast.CallExpr, sc *SpecCtx
 		}
 		ret := lit.Body.List[0].(*ast.ReturnStmt).Results[0]
 		ex.bound++
+		pc0 := len(st.pc)
 		body := ex.eval(st, ret, n)
 		ex.bound--
+		// facts contributed while evaluating the body (postconditions of function contracts applied to the
+		// bound variables) are universally valid statements about those applications: they stay under the binder
+		var facts []string
+		if len(st.pc) > pc0 && len(binders) > 0 {
+			facts = append(facts, st.pc[pc0:]...)
+			st.pc = st.pc[:pc0]
+		}
 		if len(binders) == 0 {
 			return one(body)
 		}
 		bs := body.S
 		if name == "forall" {
-			bs = implies(and(ranges...), bs)
+			bs = implies(and(append(ranges, facts...)...), bs)
 		} else {
-			bs = and(append(ranges, bs)...)
+			bs = and(append(append(ranges, facts...), bs)...)
 		}
 		return one(ex.boolVal("(" + name + " (" + strings.Join(binders, " ") + ") " + bs + ")"))
 	case "in":
@@ -1343,6 +1354,22 @@ func (ex *Exec) specForm(st *State, name string, call *ast.CallExpr, sc *SpecCtx
 			return one(&Val{Sh: leafShape(types.Typ[types.UnsafePointer], "Int"), T: types.Typ[types.UnsafePointer], S: v.kid("ref").S})
 		}
 		return one(v)
+	case "nth":
+		// nth(k, f(args)): the k-th result of a call with several results
+		if len(call.Args) == 2 {
+			if lit, ok := call.Args[0].(*ast.BasicLit); ok {
+				if k, err := strconv.Atoi(lit.Value); err == nil {
+					if inner, ok := ast.Unparen(call.Args[1]).(*ast.CallExpr); ok {
+						vs := ex.evalCall(st, inner, sc)
+						if k >= 0 && k < len(vs) {
+							return one(vs[k])
+						}
+					}
+				}
+			}
+		}
+		ex.specErr("nth(k, call): k must be a literal index into the results of the call")
+		return one(ex.freshVal(nil, "nth"))
 	case "asPtr", "asType":
 		v := ex.eval(st, call.Args[0], sc)
 		t := ex.resolveType(call.Args[1], sc)
@@ -1872,4 +1899,108 @@ func (ex *Exec) chanSend(st *State, ch, v *Val, pos token.Pos) {
 		}
 		ex.writeLoc(st, loc, ex.intVal("(+ "+n.S+" 1)", types.Typ[types.Int]))
 	}
+}
+
+
+// pureFieldCall: a call through a func-typed struct field declared `purefn pkg.Type.Field`: the result is an
+// uninterpreted function of the function value and the arguments; nothing else happens.
+func (ex *Exec) pureFieldCall(st *State, fun ast.Expr, fv *Val, args []*Val, sc *SpecCtx, resT types.Type) ([]*Val, bool) {
+	sel, ok := fun.(*ast.SelectorExpr)
+	if !ok || fv == nil || fv.Sh == nil || !fv.Sh.IsLeaf() || len(ex.eng.cs.PureFns) == 0 {
+		return nil, false
+	}
+	x := ex.eval(st, sel.X, sc)
+	if x == nil || x.T == nil {
+		return nil, false
+	}
+	t := x.T
+	if p, isP := t.Underlying().(*types.Pointer); isP {
+		t = p.Elem()
+	}
+	n := namedOf(t)
+	if n == nil {
+		return nil, false
+	}
+	key := heapTypeKey(n) + "." + sel.Sel.Name
+	if !ex.eng.cs.PureFns[key] {
+		return nil, false
+	}
+	sig, ok := fv.T.Underlying().(*types.Signature)
+	if !ok || sig.Results().Len() != 1 {
+		return nil, false
+	}
+	rt := sig.Results().At(0).Type()
+	rsh := ex.eng.sh.shapeOf(rt)
+	if !rsh.IsLeaf() {
+		return nil, false
+	}
+	sorts, terms := []string{"Int"}, []string{fv.S}
+	for _, a := range args {
+		s2, t2 := ex.flattenArg(a)
+		sorts = append(sorts, s2...)
+		terms = append(terms, t2...)
+	}
+	fname := "uf_apply_" + smtName(key)
+	ex.eng.smt.declFun(fname, "(declare-fun "+fname+" ("+strings.Join(sorts, " ")+") "+rsh.Leaf+")")
+	ex.assumption("functions held in " + key + " are pure: a call yields a value determined by the function and its arguments and has no effect (directive purefn)")
+	ex.modelUsed["purefn:"+key]++
+	return []*Val{ex.loaded(&Val{Sh: rsh, T: rt, S: "(" + fname + " " + strings.Join(terms, " ") + ")"})}, true
+}
+
+// flattenArg: the SMT terms that identify an argument value (scalars, the seven components of an `any`,
+// length and contents of a slice of scalars).
+func (ex *Exec) flattenArg(a *Val) (sorts, terms []string) {
+	if a == nil || a.Sh == nil {
+		return nil, nil
+	}
+	switch {
+	case a.Sh.IsLeaf():
+		return []string{a.Sh.Leaf}, []string{ex.ptrIdentity(a)}
+	case a.Sh.Kind == "any":
+		// the components that matter for the dynamic type the value holds (two interface values that are ==
+		// must give the same terms): payload slots not used by the tag are blanked
+		tag := a.kid("tag").S
+		isT := func(ts ...int) string {
+			var cs []string
+			for _, t := range ts {
+				cs = append(cs, eq(tag, fmt.Sprint(t)))
+			}
+			return or(cs...)
+		}
+		sorts = []string{"Int", "Int", "Real", "String", "Bool", "Int", "Int"}
+		terms = []string{tag,
+			ite(isT(tagInt64, tagInt, tagUint64, tagOther), a.kid("i").S, "0"),
+			ite(isT(tagFloat, tagF32), a.kid("r").S, "0.0"),
+			ite(isT(tagString, tagOther), a.kid("s").S, "\"\""),
+			ite(isT(tagBool), a.kid("b").S, "false"),
+			ite(isT(tagOther), a.kid("ref").S, "0"),
+			ite(isT(tagOther), a.kid("ty").S, "0")}
+		return
+	case a.Sh.Kind == "slice" && a.kid("elems").Sh.IsLeaf():
+		return []string{"Int", a.kid("elems").Sh.Leaf}, []string{a.kid("len").S, a.kid("elems").S}
+	}
+	return nil, nil
+}
+
+
+// ptrIdentity: the term that identifies a pointer value. A pointer into the middle of an object (the address of
+// an embedded struct field, e.g. &span.Data) is identified by the object and the field path, so that getters and
+// function contracts applied to s1.Data and s2.Data are not conflated.
+func (ex *Exec) ptrIdentity(v *Val) string {
+	if v == nil || v.Loc == nil || v.Sh == nil || !v.Sh.IsLeaf() || v.Sh.Leaf != "Int" {
+		if v == nil {
+			return "0"
+		}
+		return v.S
+	}
+	l := v.Loc
+	if l.Heap {
+		ex.eng.smt.declFun("uf_fieldaddr", "(declare-fun uf_fieldaddr (Int Int) Int)")
+		return "(uf_fieldaddr " + l.Ref + " " + fmt.Sprint(ex.eng.pathID(l.TKey+"#"+strings.Join(l.Path, "."))) + ")"
+	}
+	if l.Obj != nil {
+		ex.eng.smt.declFun("uf_localaddr", "(declare-fun uf_localaddr (Int Int) Int)")
+		return "(uf_localaddr " + fmt.Sprint(ex.eng.pathID(fmt.Sprintf("local:%s@%d", l.Obj.Name(), l.Obj.Pos()))) + " " + fmt.Sprint(ex.eng.pathID(strings.Join(l.Path, "."))) + ")"
+	}
+	return v.S
 }
